@@ -645,6 +645,18 @@ def c_rewrite_carried(ctx):
     if fn is None or steps is None:
         raise AnalysisError("compute_next_state / compute_next_steps not found", anchor=FL1 + "::compute_next_state")
     cons = [c for c in walk_no_nested(fn) if isinstance(c, ast.Call) and src(c.func) == "State"]
+    # the obligation is about the state the function RETURNS (the state for the next event); a scratch state for probing whether a flow would start, whose updates are merged
+    # into the returned one when the flow does start, is not a state of the replay
+    returned = {r.value.id for r in walk_no_nested(fn) if isinstance(r, ast.Return) and isinstance(r.value, ast.Name)}
+    def _scratch(c):
+        par = getattr(c, "_parent", None)
+        if not (isinstance(par, ast.Assign) and isinstance(par.targets[0], ast.Name)):
+            return False
+        v = par.targets[0].id
+        merged = any(isinstance(x, ast.Call) and isinstance(x.func, ast.Attribute) and x.func.attr == "update" and src(x.func.value).endswith(".context_updates")
+                     and src(x.func.value).split(".")[0] in returned and x.args and src(x.args[0]) == v + ".context_updates" for x in walk_no_nested(fn))
+        return v not in returned and merged
+    cons = [c for c in cons if not _scratch(c)]
     ctx.floor("C01.c.rewrite-carried", FL1, "State(...) constructions in compute_next_state", len(cons), 1)
     # alternative: compute_next_steps accumulates the updates itself over the replay loop
     accum = any(isinstance(l, ast.For) and any(isinstance(c, ast.Call) and isinstance(c.func, ast.Attribute) and c.func.attr == "update" and "context_updates" in src(c) for c in ast.walk(l))
